@@ -36,6 +36,32 @@ def run(tier):
         return vlib.read_ndjson(op)
     with ThreadPoolExecutor(max_workers=vlib.NCPU if not thorough else 6) as ex:
         events = [e for part in ex.map(one, inputs) for e in part]
+    # a platform whose int has 32 bits (GOARCH=386 build of the same driver): the larger inputs again, several per process
+    try:
+        hz386 = vlib.go_build(goarch="386")
+        ok386 = vlib.can_run_386(hz386)
+    except vlib.InfraError:
+        ok386 = False
+    run.extra["int32_platform_pass"] = bool(ok386)
+    if ok386:
+        sub = [dict(i, id=i["id"] + 100000) for i in inputs if i["n"] in (1000000, 100000, 8967, 1024, 128)]
+        groups386 = [sub[k::6] for k in range(6)]
+        def one386(grp):
+            if not grp:
+                return []
+            jp = os.path.join(tmp, "k%d.json" % grp[0]["id"]); op = os.path.join(tmp, "p%d.ndjson" % grp[0]["id"])
+            with open(jp, "w") as fh:
+                json.dump({"inputs": grp}, fh)
+            p = vlib.run_bin(hz386, ["results", jp, op], timeout=6000)
+            if p.returncode != 0:
+                raise vlib.InfraError("hz (386) results failed: " + (p.stderr or "")[-800:])
+            return vlib.read_ndjson(op)
+        with ThreadPoolExecutor(max_workers=6) as ex:
+            ev386 = [e for part in ex.map(one386, groups386) for e in part]
+        for e in ev386:
+            e["arch"] = "386"
+        events += ev386
+        inputs = inputs + sub
     # inputs on which only one of the two P-values of the overlapping test is below 0.01
     jp = os.path.join(tmp, "hunt.json"); op = os.path.join(tmp, "hunt.ndjson")
     with open(jp, "w") as fh:
